@@ -23,6 +23,7 @@ import (
 	"strconv"
 	"strings"
 	"sync"
+	"syscall"
 	"time"
 
 	"verifharness/core"
@@ -121,6 +122,12 @@ func workerMain(args []string) {
 	defer f.Close()
 	env := &core.Env{Tier: *tier, Seed: *seed, Workdir: *work}
 	debug.SetMaxStack(256 << 20) // a runaway recursion dies after 256 MB instead of 1 GB
+	if os.Getenv("VERIF_RACE_WORKER") == "" {
+		// a runaway allocation kills this worker (seen by the supervisor as a fatal crash of the logged case), not the machine;
+		// the race runtime needs its huge shadow mapping, so race workers are left alone
+		lim := syscall.Rlimit{Cur: 12 << 30, Max: 12 << 30}
+		_ = syscall.Setrlimit(syscall.RLIMIT_AS, &lim)
+	}
 	if pf := os.Getenv("VERIF_CPUPROFILE"); pf != "" {
 		if cf, err := os.Create(pf); err == nil {
 			_ = pprof.StartCPUProfile(cf)
@@ -214,6 +221,7 @@ type aggregate struct {
 	violations []core.Violation
 	violIdx    []int
 	inconcl    []string
+	perClass   map[string]int
 }
 
 func (a *aggregate) add(r *core.CaseResult) {
@@ -231,6 +239,10 @@ func (a *aggregate) add(r *core.CaseResult) {
 		a.samples[r.Idx] = r.Sample
 	}
 	for _, v := range r.Violations {
+		a.perClass[v.Class]++
+		if a.perClass[v.Class] > 3 {
+			v.Witness = nil // witnesses are written for the first three occurrences of a class only
+		}
 		a.violations = append(a.violations, v)
 		a.violIdx = append(a.violIdx, r.Idx)
 	}
@@ -284,7 +296,7 @@ func supervise(p *core.Property, tier string) int {
 	defer os.RemoveAll(tmp)
 
 	_ = os.RemoveAll(filepath.Join(root, "evidence", "witness", p.ID)) // witnesses of earlier runs are stale
-	agg := &aggregate{hashes: map[string]bool{}, cover: map[string]int{}, samples: map[int]interface{}{}}
+	agg := &aggregate{hashes: map[string]bool{}, cover: map[string]int{}, samples: map[int]interface{}{}, perClass: map[string]int{}}
 	queue := make(chan chunk, n/csize+2)
 	for a := 0; a < n; a += csize {
 		b := a + csize
@@ -484,7 +496,7 @@ func runChunk(p *core.Property, exe, tier string, seed int64, c chunk, tmp strin
 		cmd.Stdout = ef
 		cmd.Env = append(os.Environ(), "GOTRACEBACK=single")
 		if p.Race {
-			cmd.Env = append(cmd.Env, "GORACE=halt_on_error=0 log_path="+filepath.Join(work, "race"))
+			cmd.Env = append(cmd.Env, "GORACE=halt_on_error=0 log_path="+filepath.Join(work, "race"), "VERIF_RACE_WORKER=1")
 		}
 		timedOut := false
 		if err := cmd.Start(); err != nil {
